@@ -96,19 +96,51 @@ def run(c, prog):
     for nm, w, signed, kind in (("i32", 32, True, "int"), ("u32", 32, False, "int"), ("f32", 32, False, "float"), ("i64", 64, True, "int")):
         wf = prog.fn(WR + f"write_interleaved_{nm}_array")
         rf = prog.fn(RD + f"read_interleaved_{nm}_array")
-        clo = closure_of(wf)
-        enc_lid = clo["params"][0]["lid"]
+        # element codec of the writer: the closure of `values.map(|v| ..)`, or the expression pushed in a `for v in values` loop
+        enc_body = enc_lid = None
+        clos = [n for n in core.walk_fn(wf) if n.get("k") == "Closure"]
+        if len(clos) == 1:
+            enc_body, enc_lid = clos[0]["body"], clos[0]["params"][0]["lid"]
+        else:
+            for pat_w, it_w, body_w, _ in for_loops(wf):
+                lw = pat_binding_lids(pat_w)
+                pushes = [x for x in core.walk(body_w) if x.get("k") == "MethodCall" and x["m"] in ("push", "push_back", "extend_from_slice") and x["args"]]
+                if len(lw) == 1 and len(pushes) == 1:
+                    # lets inside the loop body feeding the pushed expression are part of the codec
+                    enc_body = {"k": "Block", "b": {"stmts": [st for st in core.strip(body_w)["b"]["stmts"] if st["k"] == "Let"], "expr": pushes[0]["args"][0]}}
+                    enc_lid = lw[0]
+        if enc_body is None:
+            raise core.AnchorMissing(f"{wf.path}: per-element encoder (closure or push loop) not found")
+        # element codec of the reader: the single assignment through the output element inside the loop
         loops = for_loops(rf)
         pat, it, body, _ = only(loops, "for loop", rf)
         asg = only(assigns(body), "assignment", rf)
         lids = pat_binding_lids(pat)
-        if len(lids) != 2:
-            raise core.AnchorMissing(f"{rf.path}: loop pattern is not (chunk, out)")
-        # the written place must be the second binding (deref), the decoded bytes the first
+        it0 = core.strip(it)
+        chain = []
+        x0 = it0
+        while x0.get("k") == "MethodCall":
+            chain.append(x0["m"])
+            x0 = core.strip(x0["recv"])
+        out_plid = rf.params[1]["lid"]
         lhs = core.strip(asg["l"])
-        if lhs.get("lid") != lids[1]:
-            raise core.AnchorMissing(f"{rf.path}: assignment target is not the output element")
-        check_pair(c, prog, f"interleaved_{nm}", clo["body"], enc_lid, asg["r"], lids[0], w, signed, wf.sp, kind)
+        if "zip" in chain and len(lids) == 2:
+            # for (chunk, out) in read.zip(output): the decoded bytes are the first binding, the target the second
+            if lhs.get("lid") != lids[1]:
+                raise core.AnchorMissing(f"{rf.path}: assignment target is not the output element")
+            dec_in = lids[0]
+        elif "enumerate" in chain and len(lids) == 2 and x0.get("lid") == out_plid:
+            # for (index, out) in output.iter_mut().enumerate(): the decoded bytes are `<buffer>[index]`
+            if lhs.get("lid") != lids[1]:
+                raise core.AnchorMissing(f"{rf.path}: assignment target is not the output element")
+            idx_lid = lids[0]
+
+            def dec_in(node, idx_lid=idx_lid):
+                node = core.strip(node)
+                return node.get("k") == "Index" and core.strip(node["r"]).get("lid") == idx_lid and core.strip(node["l"]).get("res") == "local"
+        else:
+            raise core.AnchorMissing(f"{rf.path}: the decoding loop is neither `zip(output)` nor `output.iter_mut().enumerate()`")
+        check_pair(c, prog, f"interleaved_{nm}", enc_body, enc_lid, asg["r"], dec_in, w, signed, wf.sp, kind)
         # both must go through (read|write)_interleaved_bytes
         for f, callee in ((wf, WR + "write_interleaved_bytes"), (rf, RD + "read_interleaved_bytes")):
             if any(core.callee_generic(n) == callee for n in core.walk_fn(f) if n.get("k") == "MethodCall"):
@@ -222,24 +254,34 @@ def run(c, prog):
     wf = prog.fn(WR + "write_referent_array")
     rf = prog.fn(RD + "read_referent_array")
     try:
-        # writer: closure(value){ encoded = value - last; last = value; encoded }
-        clo = closure_of(wf)
-        vl = clo["params"][0]["lid"]
+        # writer: per element  out = value - last; last = value   — as a `map` closure or as a `for value in values`
+        # loop pushing the encoded value; the accumulator is the local initialised to 0
         last_w = None
-        for st in wf.body["b"]["stmts"]:
-            if st["k"] == "Let" and st["pat"]["k"] == "Binding" and core.lit_value(st.get("init", {})) == 0:
+        for st in core.walk_lets(wf.body):
+            if st["pat"].get("k") == "Binding" and core.lit_value(st.get("init", {})) == 0:
                 last_w = st["pat"]["lid"]
         if last_w is None:
             raise core.AnchorMissing(f"{wf.path}: accumulator initialised to 0 not found")
-        env = {vl: Poly.sym("v"), last_w: Poly.sym("Lw")}
-        out_w = run_linear(clo["body"], env)
+        clos = [n for n in core.walk_fn(wf) if n.get("k") == "Closure"]
+        if len(clos) == 1:
+            vl = clos[0]["params"][0]["lid"]
+            env = {vl: Poly.sym("v"), last_w: Poly.sym("Lw")}
+            out_w = run_linear(clos[0]["body"], env)
+        else:
+            lw = [fl for fl in for_loops(wf) if len(pat_binding_lids(fl[0])) == 1]
+            pat_w, it_w, body_w, _ = only(lw, "per-value loop", wf)
+            vl = pat_binding_lids(pat_w)[0]
+            env = {vl: Poly.sym("v"), last_w: Poly.sym("Lw")}
+            out_w = run_linear(body_w, env, push_is_value=True)
+        if out_w is None:
+            raise NotAffine(f"{wf.path}: the per-element encoder yields no value")
         lw_next = env[last_w]
-        # reader loop: *r += last; last = *r
+        # reader loop: *r += last; last = *r   (in either statement order that computes the same thing)
         pat, it, body, _ = only(for_loops(rf), "for loop", rf)
         rl = pat_binding_lids(pat)[0]
         last_r = None
-        for st in rf.body["b"]["stmts"]:
-            if st["k"] == "Let" and st["pat"]["k"] == "Binding" and core.lit_value(st.get("init", {})) == 0:
+        for st in core.walk_lets(rf.body):
+            if st["pat"].get("k") == "Binding" and core.lit_value(st.get("init", {})) == 0:
                 last_r = st["pat"]["lid"]
         if last_r is None:
             raise core.AnchorMissing(f"{rf.path}: accumulator initialised to 0 not found")
@@ -275,12 +317,19 @@ def run(c, prog):
     c.floor(R, len(c.rules[R]["instances"]), 20, "codec instances")
 
 
-def run_linear(body, env):
-    """Interpret a straight-line block of lets / assignments / += over Poly; returns the block value (or None)."""
+def run_linear(body, env, push_is_value=False):
+    """Interpret a straight-line block of lets / assignments / += over Poly; returns the block value (or None).
+    With push_is_value the argument of the single `<vec>.push(e)` statement is the value."""
     b = core.strip(body)
     if b.get("k") != "Block":
         return algebra.poly_eval(b, env)
+    pushed = None
     for st in b["b"]["stmts"]:
+        if push_is_value and st["k"] != "Let":
+            e0 = core.strip(st["e"])
+            if e0.get("k") == "MethodCall" and e0["m"] in ("push", "push_back") and e0["args"]:
+                pushed = algebra.poly_eval(e0["args"][0], env)
+                continue
         if st["k"] == "Let":
             if st["pat"]["k"] != "Binding" or "init" not in st:
                 raise NotAffine("let pattern")
@@ -301,5 +350,8 @@ def run_linear(body, env):
             else:
                 raise NotAffine(f"statement {e.get('k')}")
     if "expr" in b["b"]:
+        e0 = core.strip(b["b"]["expr"])
+        if push_is_value and e0.get("k") == "MethodCall" and e0["m"] in ("push", "push_back") and e0["args"]:
+            return algebra.poly_eval(e0["args"][0], env)
         return algebra.poly_eval(b["b"]["expr"], env)
-    return None
+    return pushed
